@@ -192,6 +192,18 @@ CLAIMED = {
          "data. Not covered: table kinds absent from the corpus, CFF/CFF2 beyond glyph loading.",
     technique="TLA+ read-protocol model (theorem + rejected mutants); trace validation of recorded cursor sessions; spec-derived boundary mutations replayed on the readers",
     design="4/C01"),
+ "C02": dict(
+    category="model_checking",
+    text="Partial: decides the guards that bound font-controlled execution. HintVM.tla (interpreter control flow with value "
+         "stack, call stack, loop budget) and Composite.tla (component loading with nesting limit and visit budget) are "
+         "model-checked for bounded stacks, bounded work and termination over all short programs / small graphs; every "
+         "explored program and graph (plus chains and diamond chains stretched to the real limits) is run by skrifa and must "
+         "end in a value, an absence or a named error within a deadline, as must the public API driven over every corpus "
+         "font and damaged copies with hostile sizes, coordinates, engines, scratch buffers and glyph ids.",
+    note="Trusted: TLC, the bytecode assembler of the harness. Not covered by a model: CFF charstring nesting, autohinter, "
+         "paint graphs (C13), IFT client (C18/C19). Outcome-class agreement with the models is reported, not required.",
+    technique="TLA+ models of interpreter control flow and composite loading; TLC-enumerated programs/graphs replayed on skrifa; trace validation of outcomes; API drive with hostile arguments",
+    design="4/C02"),
 }
 
 NOT_APPLICABLE = {
